@@ -3,6 +3,8 @@ from cfg import Inconclusive, op_place, show, walk, strip_casts
 from common import (calls_to, callee, closure_creations, closure_consumer, field_chain, fn_of, get_fn, peel, site,
                     guards_of, ret_aggregates, field_assigns)
 
+from common import iter_pipeline, closure_tree, resolve_capture
+
 PROP = "C14"
 LEVEL = "other"
 UNDECIDED = [
@@ -16,42 +18,89 @@ M = "nucleo_matcher"
 PARSE = "pattern::Atom::parse"
 
 
+def atoms_pipeline(facts, pf):
+    """The iterator chain that turns the pattern text into atoms in `pf` (consumed by collect / extend):
+    (sink_bb, stages) or None."""
+    for bi, t in pf.calls(lambda t: callee(t).endswith("Iterator::collect") or str(t.get("fn")).endswith("Iterator::collect")
+                          or callee(t).endswith("::extend") or str(t.get("fn")).endswith("Extend::extend")):
+        for ai in range(len(t["args"])):
+            try:
+                st = iter_pipeline(pf, t, ai)
+            except Exception:
+                continue
+            if st and st[0][0] == "unknown:pattern_atoms":
+                return bi, st
+    return None
+
+
 def rule_parse_twins(ctx):
     facts = ctx.facts
     info = {}
     for parent in ("pattern::Pattern::parse", "pattern::Pattern::reparse"):
         pf = get_fn(facts, M, parent)
-        cl = [c for c in closure_creations(pf)]
-        if len(cl) != 1:
-            raise Inconclusive("%s: expected one closure" % parent)
-        cf = get_fn(facts, M, cl[0][3])
-        pc = [(bi, t) for bi, t in cf.calls(lambda t: callee(t) == PARSE)]
         key = "%s|pipeline" % parent
-        if len(pc) != 1:
-            ctx.violation(key + "|parse-call", site(cf, 0), "%s's per-word closure does not call Atom::parse exactly once" % parent)
+        # delegation: parse = reparse on a fresh, empty Pattern with the same arguments
+        if parent.endswith("::parse"):
+            dl = [(bi, t) for bi, t in pf.calls(lambda t: callee(t) == "pattern::Pattern::reparse")]
+            if dl:
+                bi, t = dl[0]
+                a = [peel(pf.expr_of_operand(x)) for x in t["args"][1:]]
+                inorder = [x[0] == "arg" and x[1] == i + 1 for i, x in enumerate(a)]
+                if all(inorder) and len(a) == 3:
+                    ctx.ok(site(pf, bi), "parse delegates to reparse with (text, case, normalization) in order: the two cannot disagree")
+                else:
+                    ctx.violation(key, site(pf, bi), "parse delegates to reparse with permuted or foreign arguments")
+                continue
+        pl = atoms_pipeline(facts, pf)
+        if pl is None:
+            raise Inconclusive("%s: no `pattern_atoms(text)…collect/extend` pipeline found" % parent)
+        sink, stages = pl
+        src_ok = peel(stages[0][2][2][0])[0] == "arg"
+        trunc = [st[0] for st in stages[1:] if st[0].startswith(("truncating:", "unknown:")) or st[0].startswith("zip")]
+        ctor = None
+        filt = False
+        for st in stages[1:]:
+            if not st[1]:
+                continue
+            cf = get_fn(facts, M, st[1])
+            pc = [(bi, t) for bi, t in cf.calls(lambda t: callee(t) == PARSE)]
+            if pc:
+                ctor = (cf, pc)
+            for b_, t_ in cf.calls(lambda t: callee(t).endswith("Utf32String::is_empty")):
+                recv = cf.expr_of_operand(t_["args"][0])
+                if any(x[0] == "field" and x[2] == "needle" for x in walk(recv)):
+                    if st[0] == "subset:filter":
+                        from cfg import decision_paths
+                        ps = decision_paths(cf)
+                        filt = len(ps) == 1 and ps[0][1] is not None and ps[0][1][0] == "un" and ps[0][1][1] == "Not"
+                    else:
+                        filt = True
+        if ctor is None or len(ctor[1]) != 1:
+            ctx.violation(key + "|parse-call", site(pf, sink), "%s's per-word closure does not call Atom::parse exactly once" % parent)
             continue
+        cf, pc = ctor
         bi, t = pc[0]
         a = [cf.expr_of_operand(x) for x in t["args"]]
-        okargs = peel(a[0])[0] == "arg" and field_chain(a[1])[1][-1:] == ["case_matching"] and field_chain(a[2])[1][-1:] == ["normalize"]
-        # captured values are the parent's own parameters
-        caps = cl[0][4]
-        cap_ok = all(pf.expr_of_operand(o)[0] in ("arg", "ref") for o in caps.values())
-        # filter: None iff needle empty
-        em = [(b_, t_) for b_, t_ in cf.calls(lambda t: callee(t).endswith("Utf32String::is_empty"))]
-        filt = False
-        if em:
-            recv = cf.expr_of_operand(em[0][1]["args"][0])
-            if any(x[0] == "field" and x[2] == "needle" for x in walk(recv)):
-                filt = True
-        # source: pattern_atoms(pattern) -> filter_map
-        pa = [(b_, t_) for b_, t_ in pf.calls(lambda t: callee(t) == "pattern::pattern_atoms")]
-        fm = [(b_, t_) for b_, t_ in pf.calls(lambda t: callee(t).endswith("Iterator::filter_map"))]
-        src_ok = bool(pa) and bool(fm) and peel(pf.expr_of_operand(pa[0][1]["args"][0]))[0] == "arg"
+
+        def cap_param(e):
+            """captured variable of the closure -> index of the parent's parameter it holds"""
+            base, names = field_chain(e)
+            if names and peel(base)[0] == "arg" and peel(base)[1] == 1:
+                rc = resolve_capture(cf, names[0])
+                if rc is not None:
+                    x = peel(rc[1])
+                    while x[0] in ("ref", "deref"):
+                        x = peel(x[1])
+                    return x[1] if x[0] == "arg" else None
+            return None
+        okargs = peel(a[0])[0] == "arg" and peel(a[0])[1] == 2 and cap_param(a[1]) is not None and cap_param(a[2]) is not None \
+            and cap_param(a[1]) < cap_param(a[2])
+        cap_ok = okargs
         info[parent] = (okargs, cap_ok, filt, src_ok)
-        if okargs and cap_ok and filt and src_ok:
-            ctx.ok(site(cf, bi), "%s: pattern_atoms(text) → Atom::parse(word, case, normalization) → drop empty needles" % parent.rsplit("::", 1)[1])
+        if okargs and cap_ok and filt and src_ok and not trunc:
+            ctx.ok(site(cf, bi), "%s: pattern_atoms(text) → Atom::parse(word, case, normalization) → drop empty needles (%s)" % (parent.rsplit("::", 1)[1], " → ".join(st[0] for st in stages)))
         else:
-            ctx.violation(key, site(cf, bi), "%s pipeline deviates (args in order %s, captures are the caller's parameters %s, empty-needle filter %s, pattern_atoms→filter_map %s): reparse and parse can produce different atoms" % (parent, okargs, cap_ok, filt, src_ok))
+            ctx.violation(key, site(cf, bi), "%s pipeline deviates (args in order %s, captures are the caller's parameters %s, empty-needle filter %s, source is pattern_atoms(text) %s, truncating stages %s): reparse and parse can produce different atoms" % (parent, okargs, cap_ok, filt, src_ok, trunc))
     # reparse clears before extending
     rp = get_fn(facts, M, "pattern::Pattern::reparse")
     clr = [bi for bi, t in rp.calls(lambda t: callee(t).endswith("Vec::<T, A>::clear"))]
@@ -65,15 +114,21 @@ def rule_parse_twins(ctx):
 def rule_new_is_literal(ctx):
     facts = ctx.facts
     callers = calls_to(facts, M, lambda t: callee(t) == PARSE)
-    allowed = ("pattern::Pattern::parse::{closure#0}", "pattern::Pattern::reparse::{closure#0}")
+    allowed_roots = ("pattern::Pattern::parse", "pattern::Pattern::reparse")
     for fn, bi, t in callers:
-        if fn.path in allowed:
+        if fn.b.get("kind") == "Closure" and fn.b.get("root") in allowed_roots:
             ctx.ok(site(fn, bi), "Atom::parse called from %s" % fn.path.split("::")[2])
         else:
             ctx.violation("%s|Atom::parse|caller" % fn.path, site(fn, bi), "the marker parser is reached from %s: literal construction must not interpret ! ^ ' $" % fn.path)
-    ctx.floor("callers of Atom::parse", len(callers), 2)
-    pn = get_fn(facts, M, "pattern::Pattern::new::{closure#0}")
-    nc = [(bi, t) for bi, t in pn.calls(lambda t: callee(t) == "pattern::Atom::new")]
+    ctx.floor("callers of Atom::parse", len(callers), 1)
+    pn = None
+    nc = []
+    for f_ in closure_tree(facts, M, "pattern::Pattern::new")[1:]:
+        c_ = [(bi, t) for bi, t in f_.calls(lambda t: callee(t) == "pattern::Atom::new")]
+        if c_:
+            pn, nc = f_, c_
+    if pn is None:
+        pn = get_fn(facts, M, "pattern::Pattern::new")
     if len(nc) == 1:
         esc = pn.const_of_operand(nc[0][1]["args"][4])
         ctx.ok(site(pn, nc[0][0]), "Pattern::new builds atoms with Atom::new (escape_whitespace = %s)" % esc)
